@@ -284,12 +284,15 @@ func TestLoaders(t *testing.T) {
 				}
 			}
 		}
-		out := kit.RunApp(app.SetConfigLoader(ls...))
+		// a loader configured by an earlier option and then replaced - SetConfigLoader sets the list, also to the empty
+		// one - is no participant any more
+		stale := &LoadPO{PO{pinfo{id: len(specs) + 100, class: 0, ord: math.MinInt, log: &log}}}
+		out := kit.RunApp(app.SetConfigLoader(stale), app.SetConfigLoader(ls...))
 		if !out.OK() {
 			t.Fatalf("Run failed: %v", out)
 		}
 		if err := checkSeq(specs, log); err != nil {
-			t.Fatalf("loader invocation sequence: %v", err)
+			t.Fatalf("loader invocation sequence (a replaced loader has id %d): %v", len(specs)+100, err)
 		}
 		d, nt, labels := describe("loaders", specs)
 		kit.Rec.Case(d, nt, labels...)
@@ -416,6 +419,28 @@ func (r *PPNO) PostProcessAfterInitialization(c any, n string) (any, error) {
 	return c, nil
 }
 
+// DecoPP is sorted in front of everything and replaces ONE of the later participants, after that one's own
+// initialization, by an opaque proxy (which is no post-processor): the replaced participant keeps its place in the
+// sequence all the same.
+type DecoPP struct {
+	target string
+	did    int
+}
+
+type opaque struct{ inner any }
+
+func (*DecoPP) Priority()                                                      {}
+func (*DecoPP) Order() int                                                     { return math.MinInt }
+func (*DecoPP) Naming() string                                                 { return "aa-deco-pp" }
+func (d *DecoPP) PostProcessBeforeInitialization(c any, n string) (any, error) { return c, nil }
+func (d *DecoPP) PostProcessAfterInitialization(c any, n string) (any, error) {
+	if n == d.target {
+		d.did++
+		return &opaque{c}, nil
+	}
+	return c, nil
+}
+
 // a post-processor that has another post-processor wired into it: the wired one finishes its creation first, which
 // must not move it in front of its holder in the sequence
 type depTarget interface{ isDepTarget() }
@@ -487,6 +512,15 @@ func TestPostProcessors(t *testing.T) {
 			}
 		}
 		comps0 := append([]any(nil), comps...)
+		decorated := -1
+		if len(specs) > 0 && rapid.IntRange(0, 3).Draw(t, "decorated") == 0 {
+			decorated = rapid.IntRange(0, len(specs)-1).Draw(t, "decoratedwhich")
+			if decorated != wi && decorated != wj {
+				comps = append(comps, &DecoPP{target: fmt.Sprintf("pp%02d", decorated)})
+			} else {
+				decorated = -1
+			}
+		}
 		comps = append(comps, &Probe{}, &Probe2{})
 		comps = rapid.Permutation(comps).Draw(t, "regorder")
 		out := kit.RunApp(app.SetComponents(comps...))
@@ -515,6 +549,10 @@ func TestPostProcessors(t *testing.T) {
 			}
 		}
 		d, nt, labels := describe("postprocessors", specs)
+		if decorated >= 0 {
+			labels = append(labels, "postprocessors/participant-decorated-by-an-earlier-one")
+			d += fmt.Sprintf(" decorated %d", decorated)
+		}
 		if wi >= 0 && wj >= 0 {
 			if w := comps0[wi].(*PPOOW); w.Dep == nil {
 				t.Fatalf("the processor with Order %d did not get the processor with Order %d wired in", specs[wi].Ord, specs[wj].Ord)
